@@ -227,6 +227,15 @@ func StartServer(parent string, cf ConfSpec, o ServerOpts) (*ServerProc, error) 
 	if err != nil {
 		return s, err
 	}
+	for _, e := range o.Env {
+		if strings.HasPrefix(e, "VERIF_POINT_newStarted=") {
+			// the initial load also passes the scheduling point, before SIGHUP handling is installed
+			if _, err := s.WaitLog([]string{"verif point left"}, 60*time.Second); err != nil {
+				return s, err
+			}
+			time.Sleep(20 * time.Millisecond)
+		}
+	}
 	if o.Strace != "" {
 		// the traced process is the child of strace
 		if pid := childOf(s.Pid); pid > 0 {
